@@ -52,7 +52,7 @@ def _harness(tier, seed):
                 # cuts every item into squares and scans q up to half the smaller side)
                 W, H = 10 ** 12 - rng.randint(0, 999), rng.choice([999, 1000, 1001])
                 try:
-                    inst = Instance(f"w{it}", W, H, [[rng.randint(H // 2, H), rng.randint(H // 2, H), rng.choice([1, 2, 11])]
+                    inst = Instance(f"Wide{it}", W, H, [[rng.randint(H // 2, H), rng.randint(H // 2, H), rng.choice([1, 2, 11])]
                                                        for _ in range(rng.randint(1, 3))])
                 except ValueError:
                     inst = rand_instance(rng)
@@ -68,7 +68,7 @@ def _harness(tier, seed):
                 if not items:
                     items = [[1, 1, 1]]
                 try:
-                    inst = Instance(f"i{it}", W, H, items)
+                    inst = Instance(f"Inst_{it}b" if it % 10 else f"gen{it}", W, H, items)   # names are case-sensitive
                 except (ValueError, MemoryError):
                     inst = rand_instance(rng)
             else:
@@ -159,14 +159,14 @@ def _harness(tier, seed):
                 # area-based objective values and bounds are integers no double represents.  (Square items and a low bin:
                 # the instance constructor cuts items into squares and scans q up to half the smaller bin side.)
                 bw, bh = 999_999_999_001 + 2 * rng.randint(0, 400), 10_007
-                insts.append(Instance(f"huge{tab}", bw, bh, [[10_000, 10_000, 2], [5_000, 5_000, 2], [4, 4, 1]]))
-            algos = rng.sample(["rls", "ea_1p1", "rs", "hc2"], rng.randint(1, 3))
+                insts.append(Instance(f"Huge{tab}", bw, bh, [[10_000, 10_000, 2], [5_000, 5_000, 2], [4, 4, 1]]))
+            algos = rng.sample(["rls", "ea_1p1", "Rs2", "hc2"], rng.randint(1, 3))
             # the table shapes are enumerated, not drawn: every run sees each combination of the optional columns
             goal_mode = ("none", "all", "mixed")[tab % 3]
             budget_mode = ("all", "none", "mixed")[(tab // 3) % 3]
             with_budget = budget_mode != "none"
             if "mixed" in (goal_mode, budget_mode) and len(algos) < 2:
-                algos = rng.sample(["rls", "ea_1p1", "rs", "hc2"], rng.randint(2, 3))
+                algos = rng.sample(["rls", "ea_1p1", "Rs2", "hc2"], rng.randint(2, 3))
             for ai, algo in enumerate(algos):
                 objn = rng.choice(["binCount", "binCountAndLastEmpty", "binCountAndSmall"])
                 enc = rng.choice(["ibf1", "ibf2"])
